@@ -18,10 +18,12 @@ exact BYTES of a frame incl. lengths and checksums, all in TLA+).
 4. code -> spec: seeded random histories on the real switch are recorded and
    TLC decides whether each is a behaviour of the spec (bytes compared in TLC).
 """
+import concurrent.futures
 import copy
 import json
 import os
 import random
+import time
 
 from engine import tlc, core, tracecheck
 from harness import c12_frames as fr
@@ -41,10 +43,11 @@ CONFIGS = {
     "table": (["Rx", "PacketOut", "FlowMod", "FlowDel", "PortMod"], {}),
     "ports_q": (["Rx", "PacketOut", "FlowMod", "FlowDel", "PortMod", "PortModBad"], {}),
     "ports": (["Rx", "PacketOut", "FlowMod", "FlowDel", "PortMod", "PortModBad"], {}),
+    "buf_q": (["Rx", "PacketOutBuf", "FlowMod", "FlowDel"], dict(MaxHeld=2)),
     "buf": (["Rx", "PacketOutBuf", "FlowMod", "FlowDel"], dict(MaxHeld=2)),
     "frag": (["Rx", "FlowMod", "FlowDel", "PortMod", "SetFrag"], {}),
 }
-QUICK = ["lists_q", "pktout_q", "table", "ports_q", "buf", "frag"]
+QUICK = ["lists_q", "pktout_q", "table", "ports_q", "buf_q", "frag"]
 THOROUGH = ["lists", "pktout", "table", "ports", "buf", "frag"]
 
 
@@ -159,7 +162,6 @@ def concretise(beh, orc, shapes):
         args[k] = sorted(args[k])
     if a in TRAFFIC:
       info["flow"] = flow or []
-      info["frames"] = [g["f"] for g in exp["em"]] + [p["f"] for p in exp["pins"]]
       exp = dict(
           em=[sorted([q, orc.hex(g["f"])] for q in g["ports"]) for g in exp["em"]],
           pins=[dict(inport=p["inport"], reason=p["reason"], total=p["total"],
@@ -197,7 +199,7 @@ def nontrivial(b):
   return any(st["a"] in TRAFFIC for st in b)
 
 
-def replay(ctx, name, behs, params, chunk=100):
+def replay(ctx, name, behs, params, chunk=250):
   if not behs:
     raise tlc.TLCError("no behaviours exported for %s" % name)
   st = core.replay(ctx, ADAPTER, behs, params=params, chunk=chunk, nontrivial=nontrivial)
@@ -264,12 +266,45 @@ def run(ctx):
       "Frames.tla and cross-checked against an independent struct encoder (harness/c12_frames.py)",
   ]
   orc = Oracle(ctx)
+  core._get_adapter(ADAPTER)            # boot POX once, before the worker processes are forked
   names = QUICK if quick else THOROUGH
+  timing = ctx.notes.setdefault("timing_s", {})
+  t0 = time.time()
+
+  def lap(k):
+    nonlocal t0
+    timing[k] = round(time.time() - t0, 1)
+    t0 = time.time()
+
   exported = {}
   shapes = None
-  # 1. the property on the model + one behaviour per transition --------------------
+  # 1. the property on the model + one behaviour per transition; 2. long behaviours:
+  #    TLC -simulate over seeded random action lists.  The TLC runs are independent
+  #    single-worker JVMs: run them side by side.
+  rnd = random.Random(ctx.seed * 7919 + 12)
+  lists = [random_list(rnd) for _ in range(60 if quick else 300)]
+  lpath = os.path.join(tlc.WORK, "C12", "lists-%d.json" % os.getpid())
+  os.makedirs(os.path.dirname(lpath), exist_ok=True)
+  with open(lpath, "w") as f:
+    json.dump(lists, f)
+  num = 40 if quick else 600
+
+  def mx(n):
+    return tlc.run(DIR, "MCDatapath", "MX_%s.cfg" % n, workers=1, tag="C12", timeout=3000)
+
+  def simulate(_):
+    return tlc.run(DIR, "MCDatapath", "EX_sim.cfg", workers=1, coverage=False, simulate=dict(num=num),
+                   depth=31, seed=ctx.seed + 1, tag="C12", env={"C12_LISTS": lpath}, timeout=1500)
+
+  try:
+    with concurrent.futures.ThreadPoolExecutor(max_workers=7) as pool:
+      futs = {n: pool.submit(mx, n) for n in names}
+      futs["sim"] = pool.submit(simulate, None)
+      results = {n: f.result() for n, f in futs.items()}
+  finally:
+    os.unlink(lpath)
   for n in names:
-    r = tlc.run(DIR, "MCDatapath", "MX_%s.cfg" % n, workers=1, tag="C12", timeout=1500)
+    r = results[n]
     if r.violated:
       raise tlc.TLCError("spec violates its own property %s (%s):\n%s" % (r.violated, n, r.error_trace[:3000]))
     tlc.require_coverage(r, CONFIGS[n][0], "Datapath %s" % n)
@@ -279,29 +314,18 @@ def run(ctx):
       raise tlc.TLCError("%s: exported %d behaviours for %d transitions" % (n, len(behs), r.generated - 1))
     shapes = r.tagged("S")[0]
     exported[n] = behs
-  # 2. long behaviours: TLC -simulate over seeded random action lists -----------------
-  rnd = random.Random(ctx.seed * 7919 + 12)
-  lists = [random_list(rnd) for _ in range(60 if quick else 300)]
-  lpath = os.path.join(tlc.WORK, "C12", "lists-%d.json" % os.getpid())
-  os.makedirs(os.path.dirname(lpath), exist_ok=True)
-  with open(lpath, "w") as f:
-    json.dump(lists, f)
-  num = 40 if quick else 600
-  try:
-    r = tlc.run(DIR, "MCDatapath", "EX_sim.cfg", workers=1, coverage=False, simulate=dict(num=num),
-                depth=31, seed=ctx.seed + 1, tag="C12", env={"C12_LISTS": lpath}, timeout=1500)
-  finally:
-    os.unlink(lpath)
-  sim = r.tagged("H")
+  sim = results["sim"].tagged("H")
   if len(sim) < num // 2:
     raise tlc.TLCError("simulation exported %d behaviours" % len(sim))
   exported["sim"] = sim
+  lap("tlc_model_check_export_simulate")
   # 3. bytes of every frame record, by TLC ------------------------------------------------
   recs = {}
   for n, behs in exported.items():
     recs.update(frames_of(behs, shapes))
   orc.need(recs)
   ctx.notes["frame_records"] = len(recs)
+  lap("tlc_byte_oracle")
   # 4. spec -> code ------------------------------------------------------------------------
   last = None
   for n in names:
@@ -315,21 +339,27 @@ def run(ctx):
   replay(ctx, "sim", behs, dict(NP=3, MissLen=128, MaxHeld=2), chunk=10)
   if last is None:
     ctx.notes["negative_control"] = "skipped: no behaviour replayed to its end"
+  lap("replay")
   # 5. code -> spec --------------------------------------------------------------------------
   hexes = {s: orc.hex(rec) for s, rec in shapes.items()}
+  jobs = []
   for kind, cfg, ntr in (("free", "Trace.cfg", 60 if quick else 600), ("buf", "Trace_buf.cfg", 30 if quick else 300)):
     items = [dict(seed=ctx.seed * 100003 + i, n=25, kind=kind, hexes=hexes) for i in range(ntr)]
     traces = core.run_driver("props.C12:drive", items)
     bad1, bad2 = corrupt(traces)
-    r, rej = tracecheck.validate(DIR, "TraceDatapath", cfg, traces + [bad1, bad2], tag="C12", timeout=1500)
-    ctx.add_model("TraceDatapath %s (validation of %d implementation traces)" % (kind, ntr), r)
+    jobs.append((kind, cfg, traces, [bad1, bad2]))
+  with concurrent.futures.ThreadPoolExecutor(max_workers=2) as pool:
+    futs = [pool.submit(tracecheck.validate, DIR, "TraceDatapath", cfg, traces + bad, tag="C12-" + kind, timeout=3000)
+            for kind, cfg, traces, bad in jobs]
+    outs = [f.result() for f in futs]
+  for (kind, cfg, traces, bad), (r, rej) in zip(jobs, outs):
+    ctx.add_model("TraceDatapath %s (validation of %d implementation traces)" % (kind, len(traces)), r)
     rejected = set(t for t, _ in rej)
     if len(traces) not in rejected or len(traces) + 1 not in rejected:
       raise tlc.TLCError("negative control (corrupted byte / counter in a recorded trace) was accepted")
     for t, matched in rej:
       if t >= len(traces):
         continue
-      ev = traces[t][matched]
       ctx.report(trace_signature(traces[t], matched),
                  dict(trace=traces[t][:matched + 1], failing_step=matched, kind=kind,
                       note="TLC rejected the recorded trace at this event (TraceDatapath.tla, %s)" % cfg))
@@ -339,6 +369,7 @@ def run(ctx):
     ctx.notes["trace_validation_" + kind] = dict(
         traces=len(traces), events=sum(len(t) for t in traces), rejected=len([1 for t in rejected if t < len(traces)]),
         negative_controls_rejected=2)
+  lap("trace_validation")
   ctx.exhaustive = True
 
 
